@@ -74,10 +74,11 @@ class LockModel:
         self._by_type = None
 
     def du(self, body):
-        d = self._du.get(body.name)
+        key = getattr(body, 'cache_key', body.name)
+        d = self._du.get(key)
         if d is None:
             d = DefUse(body)
-            self._du[body.name] = d
+            self._du[key] = d
         return d
 
     def by_type(self):
@@ -209,7 +210,8 @@ class LockModel:
     def analyse(self, body):
         """Returns dict: block -> {'in_must','in_may'} plus event lists.
         Events: acquisitions [(bid, term, lock_id, mode)], calls with held sets."""
-        r = self._facts.get(body.name)
+        ckey = getattr(body, 'cache_key', body.name)
+        r = self._facts.get(ckey)
         if r is not None:
             return r
         body.parse()
@@ -387,7 +389,7 @@ class LockModel:
                 transfer(b, in_must[b], rec_must)
         r = {'cfg': cfg, 'site_may': site_may, 'site_must': site_must, 'acq': acq_events,
              'order': order}
-        self._facts[body.name] = r
+        self._facts[ckey] = r
         return r
 
     def may_at(self, body, bid, idx=None):
